@@ -57,6 +57,11 @@ func (f *Frame) heap(st *State, name string) string {
 			f.frameFact1(name, f.heap(lf.before, name), n, lf.before.alloc, lf.guard, lf.modObjs)
 		}
 		f.heapWF(name, n, st.alloc)
+		// the heap version came into being when its base did: stored pointers refer to objects
+		// that existed then (stronger than the same statement about the later allocation counter)
+		if ba, ok := f.ctx.baseAlloc[st.base]; ok && ba != st.alloc {
+			f.heapWF(name, n, ba)
+		}
 	}
 	return n
 }
@@ -141,6 +146,7 @@ type Frame struct {
 	lockSnaps    map[string]*State
 	lastLockSnap *State
 	callSnaps    map[string]*State // state before call sites carrying asserts (atcall)
+	callArgs     map[string]map[string]sval
 	immCells     []immCell         // assigned-once local variable cells (top-level frame)
 	// calleeBindings: captured-variable cells of the closure whose contract is being applied
 	calleeBindings []string
@@ -1119,6 +1125,12 @@ func (f *Frame) havocState(st *State, w *WriteSet, why string) *State {
 	na := f.ctx.Fresh("alloc", "Int")
 	f.ctx.Fact(fmt.Sprintf("(>= %s %s)", na, st.alloc))
 	out.alloc = na
+	if w.All {
+		if f.ctx.baseAlloc == nil {
+			f.ctx.baseAlloc = map[string]string{}
+		}
+		f.ctx.baseAlloc[out.base] = na
+	}
 	var changed []string
 	for hn, t := range out.heaps {
 		if t != st.heaps[hn] {
